@@ -319,7 +319,7 @@ def run(ctx):
         res.add("D-SYM", f, norm(a.value), "size-1", "ok" if exact else ("violation" if size_only or const else "unknown"), "" if exact else "the increment is not (hyperedge size - 1)", loc(v.fi, a))
         with res.guard("_loop_pairsres, v, ruleDSYM"):
             _loop_pairs(res, v, rule="D-SYM")
-        normed = [n for n in walk_no_nested(v.fi.node) if isinstance(n, ast.BinOp) and isinstance(n.op, ast.Div) and "sum(axis=1)" in norm(n.right)]
+        normed = [n for n in walk_no_nested(v.fi.node) if isinstance(n, ast.BinOp) and isinstance(n.op, ast.Div) and ("sum(axis=1)" in norm(n.right) or "sum(axis=1)" in norm(v.inline(n.right, depth=3)) or "sum(1)" in norm(v.inline(n.right, depth=3)))]
         res.check(bool(normed), "D-SYM", f, norm(normed[0]) if normed else "T / T.sum(axis=1)", "row-normalised", "rows are not divided by their sums", loc(v.fi, v.fi.node))
     # ---- density / walk
     def tm_name(v):
@@ -346,7 +346,8 @@ def run(ctx):
         if not upd:
             res.unknown("D-STEP", f, "s = s @ K", "s<-sK", "the propagation step was not recognised", loc(v.fi, v.fi.node))
         for u in upd:
-            good = norm(u.value.left) == norm(u.targets[0]) and norm(u.value.right) == K
+            right_is_k = norm(u.value.right) == K or any(isinstance(c_, ast.Call) and norm(c_.func).endswith("transition_matrix") for c_ in ast.walk(v.inline(u.value.right, depth=4)))
+            good = norm(u.value.left) == norm(u.targets[0]) and right_is_k
             res.check(good, "D-STEP", f, norm(u), "s<-sK", "the density is not propagated as s <- s K (previous density times the transition matrix)", loc(v.fi, u))
             l_ = v.enclosing(u, (ast.For,))
             app = [n for n in ast.walk(l_) if isinstance(n, ast.Call) and isinstance(n.func, ast.Attribute) and n.func.attr == "append"] if l_ is not None else []
